@@ -55,6 +55,7 @@ class StripeSeam:
 
         recs = []
         ps_ids = {}
+        sg_outputs = list(getattr(sg, "output_tensors", []) or [])
         for cmd in sg.high_level_command_stream:
             if isinstance(cmd, NOP):
                 continue
@@ -81,7 +82,8 @@ class StripeSeam:
                          resampling=str(getattr(op, "ifm_resampling_mode", "")).split(".")[-1],
                          skirt=_ints(op.attrs.get("skirt")) if op.attrs.get("skirt") is not None else None,
                          explicit_padding=_ints(op.attrs.get("explicit_padding")) if op.attrs.get("explicit_padding") is not None else None,
-                         first=bool(cmd.is_first_h_stripe), last=bool(cmd.is_last_h_stripe))
+                         first=bool(cmd.is_first_h_stripe), last=bool(cmd.is_last_h_stripe),
+                         ofm_leaves_stream=bool(cmd.ofm_tensor in sg_outputs))
                 recs.append(r)
             elif isinstance(cmd, DMA):
                 recs.append(dict(k="d", src=self._tid(cmd.in_tensor), dst=self._tid(cmd.out_tensor)))
